@@ -55,10 +55,12 @@ type Meta struct {
 	Token  string
 	ECS    string
 	GenNs  int64
+	Class  uint16
+	Type   uint16
 }
 
 func (m Meta) encode() []byte {
-	s := fmt.Sprintf("m1|%s|%d|%s|%s|%d", m.Up, m.Serial, m.Token, m.ECS, m.GenNs)
+	s := fmt.Sprintf("m1|%s|%d|%s|%s|%d|%d|%d", m.Up, m.Serial, m.Token, m.ECS, m.GenNs, m.Class, m.Type)
 	if len(s) > 255 {
 		s = s[:255]
 	}
@@ -77,15 +79,17 @@ func DecodeMeta(m *refdns.Msg) (Meta, bool) {
 				continue
 			}
 			p := strings.Split(s, "|")
-			if len(p) != 6 {
+			if len(p) != 8 {
 				continue
 			}
 			ser, e1 := strconv.Atoi(p[2])
 			g, e2 := strconv.ParseInt(p[5], 10, 64)
-			if e1 != nil || e2 != nil {
+			cl, e3 := strconv.Atoi(p[6])
+			ty, e4 := strconv.Atoi(p[7])
+			if e1 != nil || e2 != nil || e3 != nil || e4 != nil {
 				continue
 			}
-			return Meta{Up: p[1], Serial: ser, Token: p[3], ECS: p[4], GenNs: g}, true
+			return Meta{Up: p[1], Serial: ser, Token: p[3], ECS: p[4], GenNs: g, Class: uint16(cl), Type: uint16(ty)}, true
 		}
 	}
 	return Meta{}, false
@@ -250,7 +254,7 @@ func Generate(seed uint64, up string, token string, qname refdns.Name, qclass, q
 		}
 	}
 	// metadata record
-	meta := refdns.RR{Name: qname, Type: refdns.TypeTXT, Class: qclass, TTL: ttl(99), Data: Meta{Up: up, Serial: serial, Token: token, ECS: ecs, GenNs: genNs}.encode()}
+	meta := refdns.RR{Name: qname, Type: refdns.TypeTXT, Class: qclass, TTL: ttl(99), Data: Meta{Up: up, Serial: serial, Token: token, ECS: ecs, GenNs: genNs, Class: qclass, Type: qtype}.encode()}
 	ins := func(s []refdns.RR, at int, rr refdns.RR) []refdns.RR {
 		if at > len(s) {
 			at = len(s)
